@@ -1,4 +1,4 @@
-// C01 correspondence: trie roots and state commitments computed by juno (trie2, legacy trie, both
+// C01 correspondence: trie roots, the legacy trie's stored node map and state commitments computed by juno (trie2, legacy trie, both
 // temporary-trie backends, both state backends) against the extracted Coq model. The model returns
 // hash TERMS; they are evaluated here with core/crypto (term package).
 package main
@@ -28,6 +28,23 @@ type trieCase struct {
 	Height int      `json:"height"`
 	Ops    []string `json:"ops"` // "k:v" hex, v=0 deletes
 	Reopen []int    `json:"reopen"` // legacy trie: commit + reopen after these op indices
+	NoHash []int    `json:"no_hash,omitempty"` // trie1 comparison: ops NOT followed by Hash() (lazy rehash over several Puts)
+}
+
+// the request for the Trie1 (legacy flat trie) model: k:v = Put+Hash(), k:v:n = Put only
+func (c trieCase) line1() string {
+	no := map[int]bool{}
+	for _, i := range c.NoHash {
+		no[i] = true
+	}
+	ops := make([]string, len(c.Ops))
+	for i, o := range c.Ops {
+		ops[i] = o
+		if no[i] {
+			ops[i] = o + ":n"
+		}
+	}
+	return fmt.Sprintf("trie1 %s %d %s", c.Hash, c.Height, strings.Join(ops, " "))
 }
 
 func (c trieCase) line() string {
@@ -108,6 +125,172 @@ func runLegacy(c trieCase) ([]string, error) {
 	return res, nil
 }
 
+func bitsOf(b *trie.BitArray) string {
+	if b == nil {
+		return "nil"
+	}
+	if b.Len() == 0 {
+		return "-"
+	}
+	var sb strings.Builder
+	for i := uint8(0); i < b.Len(); i++ {
+		if b.IsBitSet(i) {
+			sb.WriteByte('1')
+		} else {
+			sb.WriteByte('0')
+		}
+	}
+	return sb.String()
+}
+
+type storedNode struct{ key, left, right, value string }
+
+var trie1NodesCompared, trie1RootsCompared int
+
+// legacyFlat runs the real legacy trie with Hash() only after the ops not listed in NoHash and then
+// takes a READ-ONLY look at the database under the trie's prefix: every stored node key with its
+// child links and stored value, the in-memory root key and the persisted root key.
+func legacyFlat(c trieCase) (roots []string, nodes []storedNode, rootKey, persisted string, err error) {
+	database := memory.New()
+	prefix := []byte{0x9}
+	newTrie := trie.NewTriePedersen
+	if c.Hash == "pos" {
+		newTrie = trie.NewTriePoseidon
+	}
+	txn := database.NewIndexedBatch()
+	t, err := newTrie(txn, prefix, uint8(c.Height))
+	if err != nil {
+		return nil, nil, "", "", err
+	}
+	no := map[int]bool{}
+	for _, i := range c.NoHash {
+		no[i] = true
+	}
+	for i, o := range c.Ops {
+		k, v := parseOp(o)
+		if _, err := t.Put(&k, &v); err != nil {
+			return nil, nil, "", "", err
+		}
+		if no[i] {
+			roots = append(roots, "skip")
+			continue
+		}
+		h, err := t.Hash()
+		if err != nil {
+			return nil, nil, "", "", err
+		}
+		roots = append(roots, h.String())
+	}
+	rootKey = bitsOf(t.RootKey())
+	persisted = "nil"
+	it, err := txn.NewIterator(prefix, true)
+	if err != nil {
+		return nil, nil, "", "", err
+	}
+	defer it.Close()
+	for ok := it.First(); ok; ok = it.Next() {
+		key := it.Key()
+		val, err := it.Value()
+		if err != nil {
+			return nil, nil, "", "", err
+		}
+		if len(key) == len(prefix) {
+			var rk trie.BitArray
+			if err := rk.UnmarshalBinary(val); err != nil {
+				return nil, nil, "", "", err
+			}
+			persisted = bitsOf(&rk)
+			continue
+		}
+		var nk trie.BitArray
+		if err := nk.UnmarshalBinary(key[len(prefix):]); err != nil {
+			return nil, nil, "", "", err
+		}
+		var n trie.Node
+		if err := n.UnmarshalBinary(val); err != nil {
+			return nil, nil, "", "", err
+		}
+		nodes = append(nodes, storedNode{bitsOf(&nk), bitsOf(n.Left), bitsOf(n.Right), n.Value.String()})
+	}
+	sort.Slice(nodes, func(i, j int) bool { return nodes[i].key < nodes[j].key })
+	return roots, nodes, rootKey, persisted, nil
+}
+
+// evalTrie1 compares the real legacy trie with the Trie1 model: root after every hashed op, root key,
+// the set of stored node keys with their child links, and every stored (cached) value.
+func evalTrie1(or *hx.Oracle, c trieCase, model2 []string, obs map[string]any) *trieVerdict {
+	rep := or.AskUntil(c.line1(), "end")
+	n := len(c.Ops)
+	if len(rep) < n {
+		return &trieVerdict{"trie1model-error", "the Trie1 model returned an error (storage miss / one-sided node) on " + c.line1()}
+	}
+	roots, nodes, rootKey, persisted, err := legacyFlat(c)
+	if err != nil {
+		return &trieVerdict{"legacy-flat-error", err.Error()}
+	}
+	lastHashed := false
+	for i := 0; i < n; i++ {
+		lastHashed = false
+		switch {
+		case rep[i] == "error":
+			return &trieVerdict{"trie1model-error", fmt.Sprintf("the Trie1 model returned an error at op %d", i)}
+		case rep[i] == "skip":
+			if roots[i] != "skip" {
+				hx.Fatalf("trie1 reply out of step")
+			}
+		default:
+			lastHashed = true
+			tm := strings.TrimPrefix(rep[i], "root ")
+			if tm != model2[i] {
+				return &trieVerdict{"trie1model-vs-trie2model", fmt.Sprintf("root TERM after op %d: Trie1 model %s, Trie2 model %s (theorem C01_trie1_refines would be violated)", i, tm, model2[i])}
+			}
+			f := term.MustEval(tm)
+			trie1RootsCompared++
+			if f.String() != roots[i] {
+				return &trieVerdict{"legacy-vs-trie1model:root", fmt.Sprintf("root after op %d: legacy trie %s, Trie1 model %s", i, roots[i], f.String())}
+			}
+		}
+	}
+	rest := rep[n:]
+	if len(rest) == 0 || !strings.HasPrefix(rest[0], "rootkey ") {
+		hx.Fatalf("trie1 reply without rootkey: %v", rest)
+	}
+	mrk := strings.TrimPrefix(rest[0], "rootkey ")
+	obs["legacy_root_key"], obs["model_root_key"] = rootKey, mrk
+	if mrk != rootKey {
+		return &trieVerdict{"legacy-vs-trie1model:root-key", fmt.Sprintf("root key: legacy %s, model %s", rootKey, mrk)}
+	}
+	if lastHashed && persisted != rootKey {
+		return &trieVerdict{"legacy:persisted-root-key", fmt.Sprintf("after Hash() the persisted root key is %s, the in-memory one %s", persisted, rootKey)}
+	}
+	mnodes := rest[1:]
+	var lshape, mshape []string
+	for _, x := range nodes {
+		lshape = append(lshape, x.key+" "+x.left+" "+x.right)
+	}
+	mvals := make([]string, len(mnodes))
+	for i, l := range mnodes {
+		f := strings.SplitN(strings.TrimPrefix(l, "node "), " ", 4)
+		if len(f) != 4 {
+			hx.Fatalf("bad node line %q", l)
+		}
+		mshape = append(mshape, f[0]+" "+f[1]+" "+f[2])
+		mvals[i] = f[3]
+	}
+	obs["legacy_nodes"], obs["model_nodes"] = lshape, mshape
+	if strings.Join(lshape, "|") != strings.Join(mshape, "|") {
+		return &trieVerdict{"legacy-vs-trie1model:node-set", fmt.Sprintf("stored node keys / child links differ: legacy %v, model %v", lshape, mshape)}
+	}
+	trie1NodesCompared += len(nodes)
+	for i, x := range nodes {
+		f := term.MustEval(mvals[i])
+		if f.String() != x.value {
+			return &trieVerdict{"legacy-vs-trie1model:stored-value", fmt.Sprintf("stored value of node %s: legacy %s, model %s", x.key, x.value, f.String())}
+		}
+	}
+	return nil
+}
+
 // final root through the temporary-trie backends used for tx/event/receipt commitments
 func runTemp(c trieCase, backend core.TempTrieBackend) (string, error) {
 	run := backend.RunOnTempTriePedersen
@@ -169,6 +352,13 @@ func genTrieCase(r *hx.RNG) trieCase {
 			c.Reopen = append(c.Reopen, i)
 		}
 	}
+	// the Trie1 comparison calls Hash() only after some ops (several Puts share one lazy rehash)
+	lazy := r.Intn(3) // 0: Hash after every Put, 1: ~half, 2: rarely
+	for i := 0; i < n; i++ {
+		if (lazy == 1 && r.Chance(50)) || (lazy == 2 && r.Chance(85)) {
+			c.NoHash = append(c.NoHash, i)
+		}
+	}
 	return c
 }
 
@@ -183,8 +373,10 @@ func evalTrieCase(or *hx.Oracle, c trieCase) (*trieVerdict, map[string]any) {
 		hx.Fatalf("oracle reply has %d lines for %d ops", len(rep), n)
 	}
 	model := make([]string, n)
+	modelTerm := make([]string, n)
 	for i := 0; i < n; i++ {
-		f := term.MustEval(strings.TrimPrefix(rep[i], "root "))
+		modelTerm[i] = strings.TrimPrefix(rep[i], "root ")
+		f := term.MustEval(modelTerm[i])
 		model[i] = f.String()
 	}
 	canon := strings.TrimPrefix(rep[n], "canon ")
@@ -225,6 +417,9 @@ func evalTrieCase(or *hx.Oracle, c trieCase) (*trieVerdict, map[string]any) {
 			return &trieVerdict{name + "-vs-spec", fmt.Sprintf("final root %s, spec %s", got, spec)}, obs
 		}
 	}
+	if v := evalTrie1(or, c, modelTerm, obs); v != nil {
+		return v, obs
+	}
 	return nil, obs
 }
 
@@ -241,6 +436,14 @@ func shrinkTrie(or *hx.Oracle, c trieCase, class string) trieCase {
 					d.Reopen = append(d.Reopen, x)
 				} else if x > i {
 					d.Reopen = append(d.Reopen, x-1)
+				}
+			}
+			d.NoHash = nil
+			for _, x := range c.NoHash {
+				if x < i {
+					d.NoHash = append(d.NoHash, x)
+				} else if x > i {
+					d.NoHash = append(d.NoHash, x-1)
 				}
 			}
 			if len(d.Ops) == 0 {
@@ -552,6 +755,7 @@ func main() {
 		}
 		c.Hist["trie_ops"] += len(tc.Ops)
 		c.Hist["trie_zero_writes"] += dels
+		c.Hist["trie1_puts_without_hash"] += len(tc.NoHash)
 		c.Count(tc.line(), len(tc.Ops) >= 3)
 		if i < 2 {
 			c.Sample(tc)
@@ -579,7 +783,9 @@ func main() {
 			c.Violation(class, what, map[string]any{"kind": "state", "state_case": small, "detail": det}, false)
 		}
 	}
+	c.Hist["trie1_stored_nodes_compared"] = trie1NodesCompared
+	c.Hist["trie1_roots_compared"] = trie1RootsCompared
 	c.Finish("trie op sequences (heights 3/8/64/251, Pedersen+Poseidon, keys sharing long prefixes, ~30% zero writes, legacy trie committed+reopened at random points) " +
-		"checked on trie2, legacy trie and both temp-trie backends against the model's per-op root terms and the spec root; state diff chains (deploy/replace/nonce/storage incl. zero writes/Sierra declarations/system contracts 0x1,0x2) on both state backends with restarts, " +
+		"checked on trie2, legacy trie and both temp-trie backends against the model's per-op root terms and the spec root; the legacy trie additionally against its own transcription Trie1 (Hash() after a random subset of the Puts: root, root key, the set of stored node keys with child links read from the database, every stored value; Trie1 root TERM == Trie2 root TERM); state diff chains (deploy/replace/nonce/storage incl. zero writes/Sierra declarations/system contracts 0x1,0x2) on both state backends with restarts, " +
 		"<0.14.0 and >=0.14.0 formulas; non-trivial = at least 3 trie ops or any state chain; distinct by full case")
 }
